@@ -750,6 +750,6 @@ package redis
 
 //@ func (*upstream).HotKeys
 //@   prop C19
-//@   requires u != nil
+//@   requires u != nil && u.hkc != nil
 //@   modifies nothing
 //@   ensures @the-collectors-report sameslice(result, u.hkc.keys)
